@@ -284,6 +284,15 @@ func (e *IntervalEnv) of(v ssa.Value) Interval {
 		if x.Op == token.SUB {
 			return negIv(e.Of(x.X))
 		}
+		if x.Op == token.MUL {
+			// load of a local variable that lives in memory only because a closure captures it: if it is
+			// assigned exactly once (here) and no closure assigns it, every load sees that value
+			if al, ok := x.X.(*ssa.Alloc); ok {
+				if v := singleAssigned(al); v != nil {
+					return e.Of(v)
+				}
+			}
+		}
 		if x.Op == token.MUL && e.FieldRange != nil {
 			if fa, ok := x.X.(*ssa.FieldAddr); ok {
 				if r, ok := e.FieldRange(structTypeName(fa.X.Type()), fieldName(fa.X.Type(), fa.Field)); ok {
@@ -709,4 +718,72 @@ func substAtoms(p *Poly, m map[string]int64) *Poly {
 		q = q.Add(t)
 	}
 	return q
+}
+
+// singleAssigned: the one value ever stored into the local cell al (by its function or any closure), or nil.
+func singleAssigned(al *ssa.Alloc) ssa.Value {
+	if al.Referrers() == nil {
+		return nil
+	}
+	var val ssa.Value
+	n := 0
+	for _, r := range *al.Referrers() {
+		switch x := r.(type) {
+		case *ssa.Store:
+			if x.Addr == ssa.Value(al) {
+				val = x.Val
+				n++
+			} else {
+				return nil // address stored somewhere
+			}
+		case *ssa.UnOp:
+		case *ssa.MakeClosure:
+			if closureWrites(x, al, 0) {
+				return nil
+			}
+		case *ssa.DebugRef:
+		default:
+			return nil // address escapes (call argument, field address ...)
+		}
+	}
+	if n != 1 {
+		return nil
+	}
+	return val
+}
+
+// closureWrites: the closure made by mc (or a closure nested in it) stores through the free variable bound to v,
+// or lets that pointer escape.
+func closureWrites(mc *ssa.MakeClosure, v ssa.Value, depth int) bool {
+	if depth > 6 {
+		return true
+	}
+	fn, ok := mc.Fn.(*ssa.Function)
+	if !ok {
+		return true
+	}
+	for i, b := range mc.Bindings {
+		if b != v || i >= len(fn.FreeVars) {
+			continue
+		}
+		fv := fn.FreeVars[i]
+		if fv.Referrers() == nil {
+			continue
+		}
+		for _, r := range *fv.Referrers() {
+			switch x := r.(type) {
+			case *ssa.UnOp:
+			case *ssa.DebugRef:
+			case *ssa.Store:
+				return true
+			case *ssa.MakeClosure:
+				if closureWrites(x, fv, depth+1) {
+					return true
+				}
+			default:
+				return true
+			}
+		}
+	}
+	return false
 }
